@@ -331,6 +331,16 @@ def judge(spec, rec):
         cfg = dict(answers={'comparer_params': params, 'comparer': make_recorder(sink)}, variables=variables,
                    sample_from=sample_from, samples=spec['samples'], user_constants=uconst,
                    user_functions=X.USER_FUNCS, numbered_vars=['a'] if spec['numbered'] else [])
+        if not variant and spec['seed'] % 5 == 0:
+            # the constant a MatrixGrader supplies by itself: with identity_dim=2 the identity matrix I is part of every
+            # sample, so a dependent variable may use it.  Every dependent formula is multiplied by det(I) (= 1.0, exact):
+            # values stay what the reference computes.  (A seeded change validated dependencies at construction, before
+            # the grader had added I to its constants, and refused such configurations.)
+            for nd in spec['nodes']:
+                if nd['kind'] == 'dep':
+                    sample_from[nd['name']] = DependentSampler(formula='(%s)*det(I)' % X.render(nd['tree']))
+                    rec.cls('dependent-uses-grader-supplied-identity-constant')
+            cfg['identity_dim'] = 2
         kind, g = call(MatrixGrader, **cfg)
         if kind == 'err':
             if variant and isinstance(g, ConfigError):
